@@ -11,6 +11,7 @@ spec/Router.tla.  Binding:
                  are recorded and validated by TLC (Trace_Router).
 """
 import json
+import os
 import random
 
 from .. import detsched as ds
@@ -679,7 +680,7 @@ def repaired(fr, repairs):
 
         def _known(self, specifier):
             module = specifier.split(':')[0]
-            if 'unknown-module' in repairs and module not in self._modules and module not in self.node_by_module:
+            if 'unknown-module' in repairs and module not in self.secnode.modules and module not in self.node_by_module:
                 raise NoSuchModuleError('Module %r does not exist' % module)
 
         def handle_read(self, conn, specifier, data):
@@ -1202,6 +1203,10 @@ def run(chk):
         'steps run one after the other to quiescence; concurrency only inside the group events of the random histories',
         'requests to a node that is reachable again but not yet reconnected, and upstream nodes that are connected '
         'but mute, are outside the model']
+    if os.environ.get('VERIF_X01_FINDINGS'):
+        # judge against another findings file (e.g. findings.d/X01.json.fixed for a repaired tree)
+        with open(os.environ['VERIF_X01_FINDINGS']) as f:
+            chk.known.entries = [e for e in chk.known.entries if e.get('property') != 'X01'] + json.load(f)['findings']
     for m in ('Router', 'Gen_Router', 'Trace_Router'):
         sany(m)
     thunks = [lambda: model_check('Router', 'MC_Router_quick.cfg', timeout=900, workers=1) if quick else
